@@ -25,7 +25,7 @@ OBLIGATIONS = [
                "thorough": [_b(2, 3, 2, k, -1, 1, s0=s) for k in (1, 2, 3) for s in (1, 2, 3)]
                + [_b(2, 2, 1, 3, -1, 0, s0=s, dmax=2) for s in (1, 2)]
                + [_b(3, 3, 1, k, -1, 0, dups=False, s0=s) for k in (1, 2) for s in (1, 2, 3)]},
-        desc="real ServerMap (add_new_share) with <= 3 versions (seqnum 1..3, root-hash rank, k, distinct share count around k, duplicate "
+        desc="real ServerMap (add_new_share) with <= 3 versions (seqnum 1..3, or drawn from {9,10,99,100} to straddle digit boundaries, root-hash rank, k, distinct share count around k, duplicate "
              "copies): shares_available counts DISTINCT share numbers; recoverable <=> distinct >= k; best_recoverable_version = the "
              "recoverable version with the highest seqnum, larger root hash on ties (None if none); highest_seqnum = max over ALL located "
              "versions; unrecoverable_newer_versions = unrecoverable versions above every recoverable seqnum; needs_merge <=> two "
